@@ -30,7 +30,7 @@ THEOREMS = [P + t for t in (
     "seventeen_digits_suffice", "print17_roundtrip_partial",
     "convert_shortcircuits", "huge_shortcircuit_sound", "tiny_shortcircuit_sound", "log2_table_coarse_check",
     "scan_number_faithful", "clamp_safe", "scan_exact_when_representable", "convert_faithful", "scanner_plumbing_correct",
-    "scan_end_to_end", "log2_table_within_1ulp", "scan_number_end_to_end", "prefix_hex", "prefix_radix1", "prefix_radix2",
+    "scan_end_to_end", "integer_read_exact", "log2_table_within_1ulp", "scan_number_end_to_end", "prefix_hex", "prefix_radix1", "prefix_radix2",
     "radix_parameter", "exponent_marker_spec", "print_digits_17",
     "wrap_free", "bignat_muladd_wrap_free", "bignat_div_wrap_free", "bignat_extract_wrap_free", "convert_wrap_free",
     "convert_int32_in_range_partial",
